@@ -191,7 +191,7 @@ def run_core(ctx, opts=("d",), force=False):
                             meta[cid] = dict(g=gid, o=o, kind="entry", memo=True, inputs=[inp], entry=er)
             if o == "d":
                 # histories (C12): the whole input list on one instance, several sizes / widths
-                for hv, (size, width) in enumerate([(-1, "uint32"), (0, "uint16"), (1, "uint64"), (1 << 15, "uint")]):
+                for hv, (size, width) in enumerate([(-1, "uint32"), (0, "uint16"), (1, "uint64"), (1 << 15, "uint"), (-1, "uint8")]):
                     cid = "%s/%s/h%d" % (gid, o, hv)
                     seq = inputs if hv % 2 == 0 else list(reversed(inputs))
                     if hv >= 2:      # repeated identical inputs, back to back
